@@ -484,7 +484,7 @@ Definition decode_mN (l : list nat) : option mcaseN :=
              set/enter: a b c as above; exit: a = exceptional; capture/call: a = route (0 manager module, 1 top, 2 class, 3 the alias a library module holds),
              b = name; call captured: a = index of the reference
              outcome kind 0: outcome code of a selection operation; 1: nothing; 2: executed by (token); 3: value of (token);
-             4: AttributeError *)
+             4: AttributeError; 5: served, object not identifiable; 6 (use_static_dispatch only): the object every name was fetched from *)
 (* tb: does tensorly/__init__.py bind the attribute int64 by name at import?  (the current tree does; the candidate repair
    build/fix_candidates/C17_static_attributes.diff does not - read off the import list by the harness) *)
 Definition nc_backend_of (tb : bool) : ncfg :=
@@ -507,6 +507,7 @@ Definition dobs_ok (tenalg : bool) (model : dobs) (kind tok : nat) : bool :=
   | DRan b, 2 => tok_ok tenalg b tok
   | DVal b, 3 => tok_ok tenalg b tok
   | DErr, 4 => true
+  | DRan _, 5 | DVal _, 5 => true      (* the harness could not tell which object served (e.g. a bare library function shared by all backends) *)
   | _, _ => false
   end.
 
@@ -539,7 +540,11 @@ Fixpoint dcheck (tenalg : bool) (D : drules) (nc : ncfg) (d : dst) (es : list (d
   | [] => true
   | (o, ok, ov) :: es' =>
       let (d', ob) := dstep fixed_rules (cfg_of tenalg) D nc d o in
-      dobs_ok tenalg ob ok ov && dcheck tenalg D nc d' es'
+      (* outcome kind 6 of use_static_dispatch: the object ALL names were fetched from = the caller's backend of that moment *)
+      match o, ok with
+      | DStatic t, 6 => tok_ok tenalg (cur (d_sel d) t) ov
+      | _, _ => dobs_ok tenalg ob ok ov
+      end && dcheck tenalg D nc d' es'
   end.
 
 Definition agree_d (l : list nat) : bool :=
@@ -672,10 +677,12 @@ Example init_example :
 Proof. vm_compute. repeat split. Qed.
 
 (* ---- re-binding under concurrency (leading digit 9): one thread runs use_dynamic_dispatch() under settrace and is stopped
-   after k = 0, 1, ... source lines; another thread then looks the FIRST name of _functions up through the manager module.
-   digits: tenalg, does the loop of the CURRENT source contain the delattr? (ast), number of observations, then per k:
-   0 found / 1 AttributeError.  Model (rsched / rprog): without the delattr no look-up can miss (C17_micro_rebind_no_window);
-   with it there is a window - the sweep over k must find it *)
+   after k source lines / k bytecodes (a sweep over k plus random positions inside the whole loop); another thread then
+   looks EVERY dispatched name up through the manager module.
+   digits: tenalg, does the loop of the CURRENT source delete the attribute before setting it? (ast; no since /repo commit
+   34d4068), number of observations, then per stop position: 0 every name found / 1 some name raised AttributeError.
+   Model (rsched / rprog): without the delattr no look-up can miss (C17_micro_rebind_no_window); with it there is a
+   window, which the sweep must find *)
 Definition agree_rebind (l : list nat) : bool :=
   match l with
   | _ :: wd :: n :: obs =>
@@ -808,7 +815,12 @@ Definition agree_dn (l : list nat) : bool :=
 Example dn_example :
   let good := [0;3;1; 0;3; 5;1;2; 0;6;
                0;1;1;0;1;1; 0;0;   7;1;1;0;0;0; 2;9;   7;1;0;0;1;0; 2;9;   7;1;1;0;1;0; 2;9;   7;1;0;0;2;0; 3;9;   7;2;0;0;2;0; 3;0] in
-  agree_dn good = true /\ agree_dn (firstn 33 good ++ [8] ++ skipn 34 good) = false /\ agree_dn (firstn 50 good) = false.
+  (* ... then use_static_dispatch by thread 1 (every name fetched from Obj 1): thread 2 gets Obj 1 through the manager module,
+     its own default through the import-time binding of name 0; an unidentifiable server is accepted, a wrong one is not *)
+  let st := [0;3;1; 0;3; 5;1;2; 0;6;
+             0;1;1;0;1;1; 0;0;   3;1;0;0;0;0; 6;9;   7;2;0;0;1;0; 2;9;   7;2;1;0;0;0; 2;2;   7;2;0;0;2;0; 5;0;   7;2;0;0;0;0; 2;2] in
+  agree_dn good = true /\ agree_dn (firstn 33 good ++ [8] ++ skipn 34 good) = false /\ agree_dn (firstn 50 good) = false /\
+  agree_dn st = false /\ agree_dn (firstn 57 st ++ [9]) = true /\ agree_dn (firstn 25 st ++ [8] ++ skipn 26 st) = false.
 Proof. vm_compute. repeat split. Qed.
 
 (* ---- the metadata of the closure (leading digit 12): histories of selections, use_dynamic_dispatch, captures of the
